@@ -353,6 +353,29 @@ func c20Child(r *ev.Run, batch int) {
 						r.Violation(fmt.Sprintf("C20/binary-differs-from-library/%s", cfg), "cmd/modelgen and the library API generate different code: "+d, wit)
 					}
 					r.Count("binary-runs-compared", 2)
+					// regeneration: the output directory already holds the files of another
+					// configuration (users re-run the generator in place after changing flags or
+					// the schema); what ends up there must be what a fresh generation gives
+					od := filepath.Join(scratch, fmt.Sprintf("bin-%s-again", pkg))
+					first := []string{"-p", pkg, "-o", od}
+					if !cfg.ext {
+						first = append(first, "-extended")
+					}
+					second := []string{"-p", pkg, "-o", od}
+					if cfg.ext {
+						second = append(second, "-extended")
+					}
+					_, err1 := c20Run(scratch, 2*time.Minute, bin, append(first, schemaFile)...)
+					out2, err2 := c20Run(scratch, 2*time.Minute, bin, append(second, schemaFile)...)
+					if err1 == nil && err2 != nil {
+						r.Violation(fmt.Sprintf("%s/regenerate-binary/%s/%s", pfx, cfg, c20ErrClass(out2)), "cmd/modelgen fails when its output directory holds an earlier generation: "+truncate(out2, 1500), wit)
+					} else if err1 == nil {
+						if d := sameFiles(outs[0], readDir(od)); d != "" {
+							r.Violation(fmt.Sprintf("C20/regeneration-differs-from-fresh-generation/%s", cfg), "generating into a directory that holds the output of another configuration does not give what a fresh generation gives: "+d, wit)
+						}
+						r.Count("regenerations-compared", 1)
+					}
+					_ = os.RemoveAll(od)
 				}
 			}
 			pd := filepath.Join(scratch, pkg)
